@@ -67,6 +67,8 @@ def gen_journal(rng):
             x = X.gen_cost_only(rng)
         elif r < 0.98:
             x = X.gen_plain(rng, elide=rng.random() < 0.3)
+        elif r < 0.99:
+            x = X.gen_virtual_lot(rng, elide=rng.random() < 0.5)
         else:
             x = X.add_null(rng, X.gen_balanced(rng, with_costs=False))
         x.date = '2020/%02d/%02d' % (rng.randrange(1, 13), rng.randrange(1, 29))
